@@ -243,6 +243,89 @@ pub fn gen_case(src: &mut Src, _i: usize) -> Case {
     case
 }
 
+/// structured random pairs: rich state at save time, busy interval, matching restore
+pub fn gen_pairs(src: &mut Src, _i: usize) -> Case {
+    let (cols, rows) = gen::small_size(src);
+    let rows = if src.chance(3, 4) { rows.max(3) } else { rows };
+    let cols = cols.max(2);
+    let mut g = G::new(cols, rows).no_ris();
+    let mut case = Case::new(cols, rows, None);
+    let start_alt = src.chance(1, 3);
+    if start_alt {
+        case.calls.push(Call::FeedStr(format!("\x1b[?{}h", src.pick(&[47, 1047]))));
+    }
+    let state = |src: &mut Src, g: &G| -> String {
+        let mut s = String::new();
+        if src.chance(1, 3) && g.rows >= 3 {
+            let t = src.range(1, g.rows - 1);
+            let b = src.range(t + 1, g.rows);
+            s.push_str(&format!("\x1b[{};{}r", t, b));
+        }
+        if src.chance(1, 2) {
+            s.push_str(*src.pick(&["\x1b[?6h", "\x1b[?6l"]));
+        }
+        if src.chance(1, 2) {
+            s.push_str(*src.pick(&["\x1b[?7l", "\x1b[?7h"]));
+        }
+        if src.chance(2, 3) {
+            s.push_str(&gen::sgr(src, g, false));
+        }
+        match src.below(4) {
+            0 => s.push_str(&format!("\x1b[{};{}H", src.range(1, g.rows), src.range(1, g.cols))),
+            1 => s.push_str(&format!("\x1b[{};999H", src.range(1, g.rows))),
+            2 => {
+                // wrap-pending (needs auto-wrap on while printing)
+                s.push_str(&format!("\x1b[?7h\x1b[{};{}Hx", src.range(1, g.rows), g.cols));
+            }
+            _ => {}
+        }
+        s
+    };
+    case.calls.push(Call::FeedStr(state(src, &g)));
+    let pair_1049 = !start_alt && src.chance(1, 4);
+    let save = if pair_1049 { "\x1b[?1049h" } else { *src.pick(&["\x1b7", "\x1b[s", "\x1b[?1048h"]) };
+    case.calls.push(Call::FeedStr(save.to_string()));
+    let n = src.range(1, 5);
+    for _ in 0..n {
+        match src.below(9) {
+            0 | 1 => case.calls.push(Call::FeedStr(state(src, &g))),
+            2 => {
+                // excursion to the other screen with its own save/restore (not for 1049 pairs,
+                // whose restore must come from the alternate screen)
+                if !pair_1049 {
+                    let (on, off) = if start_alt { ("\x1b[?1047l", "\x1b[?1047h") } else { ("\x1b[?1047h", "\x1b[?1047l") };
+                    let inner = format!("{}{}{}{}{}{}", on, state(src, &g), src.pick(&["\x1b7", "\x1b[s", ""]), state(src, &g), src.pick(&["\x1b8", "\x1b[u", ""]), off);
+                    case.calls.push(Call::FeedStr(inner));
+                } else {
+                    case.calls.push(Call::FeedStr(format!("{}{}", state(src, &g), src.pick(&["\x1b7", "\x1b8", ""]))));
+                }
+            }
+            3 => case.calls.push(Call::FeedStr(gen::input(src, &g.clone().no_alt(), 4))),
+            4 => {
+                if src.chance(1, 3) {
+                    let (c, r) = gen::resize_target(src, &g);
+                    g.cols = c.max(1);
+                    g.rows = r.max(1);
+                    case.calls.push(Call::Resize(c, r));
+                }
+            }
+            5 => {
+                if src.chance(1, 4) {
+                    case.calls.push(Call::FeedStr("\x1b[!p".into()));
+                }
+            }
+            _ => case.calls.push(Call::FeedStr(format!("{}abc\r\n", gen::sgr(src, &g, false)))),
+        }
+    }
+    let restore = if pair_1049 { "\x1b[?1049l" } else { *src.pick(&["\x1b8", "\x1b[u", "\x1b[?1048l"]) };
+    case.calls.push(Call::FeedStr(restore.to_string()));
+    if src.chance(1, 4) {
+        // restoring twice must give the same context again
+        case.calls.push(Call::FeedStr(format!("{}{}", state(src, &g), restore)));
+    }
+    case
+}
+
 /// enumerated: 4 save spellings x 4 restore spellings x screens x saved states x interventions
 fn enum_pairs() -> Vec<Case> {
     let saves = ["\x1b7", "\x1b[s", "\x1b[?1048h", "\x1b[?1049h"];
@@ -317,7 +400,8 @@ pub fn run(env: &Env) -> PropRun {
     let mut parts = vec![];
     let ep = enum_pairs();
     parts.push(run_part(env, "enum-pairs", ep.len(), true, "8x5: {primary, alternate} x same-screen pairs of 4 save / 4 restore spellings x 6 saved states (incl. wrap-pending, origin, auto-wrap off) x 7 interventions (mode/pen/margin changes, other-screen excursions with own saves, DECSTR, scrolling) x with/without a shrinking resize; plus restore with nothing saved", &|i| ep.get(i).cloned(), &j));
-    parts.push(random_part(env, "random-histories", env.tier.scale(60_000, 30), &gen_case, &j));
+    parts.push(random_part(env, "random-pairs", env.tier.scale(40_000, 30), &gen_pairs, &j));
+    parts.push(random_part(env, "random-histories", env.tier.scale(40_000, 30), &gen_case, &j));
     PropRun {
         parts,
         meta: EvidenceMeta {
